@@ -1890,7 +1890,11 @@ func (ctx *RenderContext) ToString(val interface{}) string {
 	case []byte:
 		return string(v)
 	case fmt.Stringer:
-		return v.String()
+		// (a nil pointer to a type with a value-receiver String method
+		// satisfies the interface, but calling the method panics)
+		if !isNilPointer(val) {
+			return v.String()
+		}
 	}
 
 	// Anything else is printed like %v, but without memory addresses
